@@ -2,11 +2,14 @@
 
 1. TLC, exhaustive: tla/driver/Driver.tla — every command shape (-E/-S/-c/link x -o/none x
    1..3 inputs of kinds .c/.s/.o) x every single fault (k-th cc1/as/ld dies by exit status or
-   by signal, missing / erroneous input, uncreatable -o path), one driver (with termination
-   under fairness) and two drivers interleaved in one directory; invariants P1..P5.
-   Sensitivity controls: the model without cleanup / without the wait-status check / with an
-   unbuffered front end / with predictable temporary names / with the pinned tree's routing
-   must each be rejected by TLC (else the invariants are vacuous -> exit 2).
+   by signal or cannot be started, missing input, input rejected by the parser / only by the
+   code generator, an input the driver itself rejects (unknown extension) after earlier ones were
+   compiled, uncreatable -o path), one driver (with termination under fairness) and two drivers
+   interleaved in one directory; invariants P1..P5.
+   Sensitivity controls: the model without cleanup / with cleanup by explicit calls instead of an
+   exit handler / without the wait-status check / with an unbuffered front end / with predictable
+   temporary names / with the pinned tree's routing must each be rejected by TLC (else the
+   invariants are vacuous -> exit 2).
 2. Generate -> replay: every terminated single-driver behaviour of the model is one
    (command, directory, fault plan); it is executed with the real driver of the tree under
    test in a scratch directory.  Faults are injected without touching chibicc: harness/c/c14_shim.c
@@ -28,7 +31,12 @@ STRACE = [shutil.which("strace") or "strace", "-f", "-s", "8192", "-e", "trace=e
 
 
 def user_paths():
-    return ["in%d.%s" % (i, k) for i in range(1, MAXIN + 1) for k in KINDS] + ["a.out", "out1"]
+    return ["in%d.%s" % (i, k) for i in range(1, MAXIN + 1) for k in KINDS + ("x",)] + ["a.out", "out1"]
+
+
+def eff_kinds(b):
+    """kinds as named on the command line: position df.i has the unknown extension .x under unkext"""
+    return ["x" if b["df"]["t"] == "unkext" and b["df"]["i"] == i else k for i, k in enumerate(b["ins"], 1)]
 
 
 # ------------------------------------------------------------------ inputs
@@ -72,7 +80,7 @@ class Inputs:
     def content(self, i, kind, mode, bad):
         if mode == "E":                      # -E: every input is C text whatever its suffix
             return c_text(i, bad, True).encode()
-        if kind == "c":
+        if kind in ("c", "x"):               # in<i>.x: C text behind an extension the driver does not know
             return c_text(i, bad).encode()
         if kind == "s":
             return s_text(i, bad).encode()
@@ -306,14 +314,19 @@ def beh_key(b):
 def argv_of(b, d=1):
     flag = {"E": ["-E"], "S": ["-S"], "c": ["-c"], "link": []}[b["mode"]]
     opath = ("nodir/out%d" if b["fault"]["t"] == "unwritable" else "out%d") % d
-    return flag + (["-o", opath] if b["o"] else []) + ["in%d.%s" % (i + 1, k) for i, k in enumerate(b["ins"])]
+    files = []
+    for i, k in enumerate(eff_kinds(b), 1):
+        if k == "x" and (i + len(b["ins"]) + (b["pre"] == "old")) % 2:
+            files += ["-x", "none"]            # changes nothing (FILE_NONE is the default): same rejection
+        files.append("in%d.%s" % (i, k))
+    return flag + (["-o", opath] if b["o"] else []) + files
 
 
 def populate(inputs, b, cwd, outs=("out1",)):     # outs: -o paths whose directory exists
     """directory contents for behaviour b; returns {name: (bytes, class)} of the input files"""
     orig = {}
     names = set()
-    for i, k in enumerate(b["ins"], 1):
+    for i, k in enumerate(eff_kinds(b), 1):
         n = "in%d.%s" % (i, k)
         names.add(n)
         if b["df"]["i"] == i and b["df"]["t"] == "missing":
@@ -555,11 +568,11 @@ def expected_two(b1, b2):
         return m
     f1, f2 = final(b1, 1), final(b2, 2)
     init = {}
-    names = {"in%d.%s" % (i, k) for i, k in enumerate(b1["ins"], 1)}
+    names = {"in%d.%s" % (i, k) for i, k in enumerate(eff_kinds(b1), 1)}
     for p in [x for x in user_paths() if x != "out1"] + ["out1", "out2"]:
         if p in names:
             i = int(p[2])
-            init[p] = ("absent" if b1["df"]["t"] == "missing" else b1["df"]["t"]) if b1["df"]["i"] == i else "src"
+            init[p] = ("absent" if b1["df"]["t"] == "missing" else b1["df"]["t"]) if b1["df"]["i"] == i and b1["df"]["t"] != "unkext" else "src"
         else:
             init[p] = b1["pre"]
     exp = {}
@@ -635,7 +648,7 @@ def make_pairs(beh, seed, n):
 
 # -------------------------------------------------------------------- run
 CONTROLS = [("DoCleanup", False, "P1", 1), ("CheckWait", False, "P2", 1), ("Buffered", False, "P3", 1),
-            ("Pinned", True, "P4", 1), ("ExclTmp", False, "P5", 2)]
+            ("Pinned", True, "P4", 1), ("ExclTmp", False, "P5", 2), ("AtExit", False, "P1", 1)]
 
 
 def model_check2(ctx, errors):
@@ -652,12 +665,15 @@ def controls(ctx, errors):
     def one(t):
         name, val, inv, nd = t
         if nd == 1:
-            cfg = ctx.cfg("driver", "Driver_mc1.cfg", name="ctl-" + name, MaxIn=1, Emit=False, **{name: val})
+            # (a driver-level error with temporaries outstanding needs a second input)
+            cfg = ctx.cfg("driver", "Driver_mc1.cfg", name="ctl-" + name, MaxIn=2 if name == "AtExit" else 1, Emit=False, **{name: val})
         else:
             cfg = ctx.cfg("driver", "Driver_ctl2.cfg", name="ctl-" + name, **{name: val})
         r = ctx.tlc("driver", "Driver", cfg, workers=1, count=False, deque=True)
         if r.ok or r.violated != inv:
             raise Infra("sensitivity control failed: model with %s=%s should violate %s, TLC says %s" % (name, val, inv, r.violated))
+        if name == "AtExit" and '"unkext"' not in r.trace_text():
+            raise Infra("sensitivity control failed: cleanup by explicit calls must be rejected through a driver-level error()")
         if name == "Buffered" and '"badgen"' not in r.trace_text():
             raise Infra("sensitivity control failed: the unbuffered front end must be rejected through an input that fails in codegen()")
     def live(t):
@@ -665,7 +681,7 @@ def controls(ctx, errors):
         cfg = ctx.cfg("driver", "Driver_live.cfg", name="live%d" % nd, ND=nd, MaxIn=maxin)
         ctx.tlc_expect_ok("driver", "Driver", cfg, "a driver does not terminate under fairness (or violates P1-P5)", workers=2, heap="6g", timeout=2400)
     try:
-        vt.pmap(one, CONTROLS, workers=5)
+        vt.pmap(one, CONTROLS, workers=6)
         # liveness: every driver terminates (WF on each driver's steps)
         vt.pmap(live, [(1, 2)] if ctx.quick else [(1, 3), (2, 1)], workers=2)
     except BaseException as e:
@@ -678,6 +694,22 @@ def load_behaviours(path):
     for l in lines:
         v = json.loads(l)
         out.append(json.loads(v) if isinstance(v, str) else v)
+    return out
+
+
+def stratified(beh, seed, stride):
+    """seed-selected 1/stride of the behaviours, taken inside every stratum (mode, -o, kind of
+    directory fault, kind of tool fault) so that no fault family is thinned out by the order of
+    enumeration; a stratum smaller than the stride still contributes one behaviour"""
+    if stride <= 1:
+        return list(beh)
+    strata = {}
+    for b in beh:
+        strata.setdefault((b["mode"], b["o"], b["df"]["t"], b["fault"]["t"], b["fault"]["how"], b["ntmp"] > 0), []).append(b)
+    out = []
+    for k in sorted(strata, key=str):
+        bs = strata[k]
+        out += vt.subsample(bs, seed, stride) or [bs[seed % len(bs)]]
     return out
 
 
@@ -704,7 +736,7 @@ def run(ctx):
         raise Infra("generator wrote only %d behaviours" % len(beh))
     ctx.phase("mc1 done (%d behaviours)" % len(beh))
     # 2. replay a seed-selected subsample (quick) / everything (thorough) on the real driver
-    todo = vt.subsample(beh, ctx.seed, 8 if q else 1)
+    todo = stratified(beh, ctx.seed, 10 if q else 1)
     results = vt.pmap(lambda t: run_case(ctx, tree, shim, inputs, t[1], t[0]), list(enumerate(todo)), workers=12)
     for b in todo:
         ctx.note_case(beh_key(b), nontrivial=b["fault"]["t"] != "none" or b["df"]["t"] != "none" or len(b["ins"]) > 1)
